@@ -1,0 +1,99 @@
+//go:build verif
+// +build verif
+
+package p2p
+
+import (
+	"crypto/ecdsa"
+	"io"
+	"net"
+	"sync/atomic"
+)
+
+// Hooks for the verification harnesses in /verif (build tag "verif" only). They expose unexported
+// state and entry points; they add no behaviour of their own.
+
+// VerifSessionKey returns a copy of the AES session key of a handshaken peer.
+func VerifSessionKey(p IPeer) []byte {
+	return append([]byte(nil), p.(*Peer).aes...)
+}
+
+// VerifSessionPeer returns a peer over conn in the state DoHandshake leaves it in: session key and
+// remote node id set.
+func VerifSessionPeer(conn net.Conn, aes []byte, remote NodeID) IPeer {
+	p := NewPeer(conn).(*Peer)
+	p.aes = append([]byte(nil), aes...)
+	p.rNodeID = remote
+	return p
+}
+
+// VerifUnpackFrame is the unexported frame parser (AES-CBC decrypt, 4-byte code, payload).
+func VerifUnpackFrame(p IPeer, content []byte) (MsgCode, []byte, error) {
+	return p.(*Peer).unpackFrame(content)
+}
+
+// VerifPackFrame is the unexported frame builder (what a legitimate remote sends).
+func VerifPackFrame(p IPeer, code MsgCode, msg []byte) ([]byte, error) {
+	return p.(*Peer).packFrame(code, msg)
+}
+
+// VerifReadConn reads one raw frame body from the connection (magic, length, content).
+func VerifReadConn(p IPeer) ([]byte, error) { return p.(*Peer).readConn() }
+
+// VerifHandle is the unexported per-frame handler of the read loop.
+func VerifHandle(p IPeer, content []byte) error { return p.(*Peer).handle(content) }
+
+// VerifStopped reports whether the peer has been closed (stop channel closed).
+func VerifStopped(p IPeer) bool {
+	select {
+	case <-p.(*Peer).stopCh:
+		return true
+	default:
+		return false
+	}
+}
+
+// VerifQueued is the number of received messages waiting in the peer's channel.
+func VerifQueued(p IPeer) int { return len(p.(*Peer).newMsgCh) }
+
+// VerifReadHandshakeBuf is the unexported handshake packet reader (magic, length, ECIES decrypt).
+func VerifReadHandshakeBuf(conn io.ReadWriter, prv *ecdsa.PrivateKey) ([]byte, error) {
+	return readHandshakeBuf(conn, prv)
+}
+
+// VerifServerHandshake / VerifClientHandshake run the two halves of the encrypted handshake and
+// return the derived session key and remote id.
+func VerifServerHandshake(conn io.ReadWriter, prv *ecdsa.PrivateKey) (aes []byte, remote NodeID, err error) {
+	s, err := serverEncHandshake(conn, prv, nil)
+	if err != nil || s == nil {
+		return nil, NodeID{}, err
+	}
+	return s.Aes, s.RemoteID, nil
+}
+
+func VerifClientHandshake(conn io.ReadWriter, prv *ecdsa.PrivateKey, remoteID *NodeID) (aes []byte, remote NodeID, err error) {
+	s, err := clientEncHandshake(conn, prv, remoteID)
+	if err != nil || s == nil {
+		return nil, NodeID{}, err
+	}
+	return s.Aes, s.RemoteID, nil
+}
+
+// VerifConnServer returns a server whose HandleConn can be called without listening on a port:
+// marked running, detached from the process-wide event bus, no loops started.
+func VerifConnServer(cfg Config, discover *DiscoverManager) *Server {
+	srv := NewServer(cfg, discover)
+	srv.unSub()
+	atomic.StoreInt32(&srv.running, 1)
+	return srv
+}
+
+// VerifAddedPeer takes the peer HandleConn announced on the add-peer channel, if any.
+func VerifAddedPeer(srv *Server) IPeer {
+	select {
+	case p := <-srv.addPeerCh:
+		return p
+	default:
+		return nil
+	}
+}
